@@ -93,7 +93,7 @@ def gen_net(rng, cls="hg", max_nodes=6, max_edges=6, labels=None, edge_ids=None,
 # ----------------------------------------------------------------------------- running one case on the implementation
 
 FUNCS = ["subhypergraph", "dual", "dual2", "lshift", "complement", "cut_to_order", "k_skeleton", "from_max_simplices",
-         "maximal", "lch", "relabel", "cleanup", "copy"]
+         "maximal", "lch", "relabel", "cleanup", "copy", "components"]
 FLAGS = ["isolates", "singletons", "multiedges", "connected", "relabel"]
 
 
@@ -126,6 +126,8 @@ def call(req, H, H2=None):
         return list(H.edges.maximal(strict=req["strict"]))
     if f == "lch":
         return xgi.largest_connected_hypergraph(H)
+    if f == "components":
+        return conn_queries(H, _ids(req.get("probe", [])))
     if f == "relabel":
         r = xgi.convert_labels_to_integers(H, label_attribute=req["label_attribute"], in_place=req["in_place"])
         return H if req["in_place"] else r
@@ -133,6 +135,31 @@ def call(req, H, H2=None):
         r = H.cleanup(**{k: req[k] for k in FLAGS}, in_place=req["in_place"])
         return H if req["in_place"] else r
     raise AssertionError(f)
+
+
+def conn_queries(H, probe):
+    """the connectivity queries of xgi/algorithms/connected.py that largest_connected_hypergraph and the `connected`
+    step of cleanup rest on, each called on its own (a call that raises is recorded as {"$err": kind})"""
+    def q(th):
+        try:
+            return th()
+        except Exception as e:  # noqa
+            return {"$err": MH.outcome_of(e, False)}
+
+    def ids(c):
+        if not isinstance(c, (set, frozenset)):
+            raise AssertionError(f"a component must be a set, got {type(c).__name__}")
+        return sorted((enc_id(x) for x in c), key=idkey)
+
+    def exact(v, t):
+        if type(v) is not t:
+            raise AssertionError(f"expected {t.__name__}, got {type(v).__name__}")
+        return v
+    return {"comps": q(lambda: [ids(c) for c in xgi.connected_components(H)]),
+            "number": q(lambda: exact(xgi.number_connected_components(H), int)),
+            "connected": q(lambda: exact(xgi.is_connected(H), bool)),
+            "largest": q(lambda: ids(xgi.largest_connected_component(H))),
+            "ncc": [[enc_id(n), q(lambda n=n: ids(xgi.node_connected_component(H, n)))] for n in probe]}
 
 
 def in_place(req):
@@ -173,6 +200,8 @@ def run_impl(req):
         return req, {"out": out, "arg_mutated": mutated}, exc
     if req["f"] == "maximal":
         return req, {"out": out, "ids": [enc_id(i) for i in R], "arg_mutated": mutated}, exc
+    if req["f"] == "components":
+        return req, dict(R, out=out, arg_mutated=mutated), exc
     snap = MH.snapshot(H if exc is not None else R, out)
     snap["arg_mutated"] = mutated
     return req, snap, exc
@@ -187,6 +216,14 @@ def norm(f, snap):
     """what is compared: everything, except orders that come from Python set iteration"""
     if f == "maximal" and "ids" in snap:
         return {"out": snap["out"], "ids": snap["ids"]}
+    if f == "components" and "comps" in snap:
+        # components as sorted lists, in the order they are yielded; a query that raised: "err"
+        e = lambda v: "err" if (isinstance(v, dict) and "$err" in v) or v == "err" else v
+        c = lambda v: sorted(v, key=idkey) if isinstance(v, list) else e(v)
+        comps = e(snap["comps"])
+        return {"out": snap["out"], "comps": [c(x) for x in comps] if isinstance(comps, list) else comps,
+                "number": e(snap["number"]), "connected": e(snap["connected"]), "largest": c(snap["largest"]),
+                "ncc": [[n, c(v)] for n, v in snap["ncc"]]}
     if "nodes" not in snap:
         return {"out": snap["out"]}
     s = {k: snap[k] for k in FIELDS}
@@ -297,6 +334,9 @@ def pred_def(req, snap, exc):
         if got != want:
             bad("maximal-edges", f"strict={req['strict']}: got {got!r} want {want!r}")
         return fails
+
+    if f == "components" and "comps" in snap:
+        return conn_pred(req, snap, nodes, mem)
 
     if "nodes" not in snap or snap["out"].startswith("err"):
         # --- calls that raised: decide whether raising is what the definition allows
@@ -451,6 +491,54 @@ def pred_def(req, snap, exc):
 
     elif f == "cleanup":
         fails += cleanup_pred(req, nodes, mem, eo, ne, ee, net, rn, rmem, reo, rne, ree, rnet)
+    return fails
+
+
+def conn_pred(req, snap, nodes, mem):
+    """connected_components is the partition of the nodes into the classes of 'joined by a chain of edges' (union-find),
+    number_connected_components counts them, is_connected says whether there is exactly one, largest_connected_component
+    is the first class of maximal size, node_connected_component(n) is the class of n (XGIError for a foreign node).
+    On the null network is_connected / largest_connected_component have nothing to answer: raising is accepted.
+    Failure classes are written "<function>/<class>": the violation is reported under that function (site_class)."""
+    fails = []
+    bad = lambda c, d="": fails.append((c, d))
+    ids = lambda c: sorted((enc_id(x) for x in c), key=idkey)
+    isErr = lambda v: isinstance(v, dict) and "$err" in v
+    exp = [ids(c) for c in components(nodes, mem)]
+    got = snap["comps"]
+    if isErr(got):
+        bad("connected_components/raised", f"connected_components raised ({got['$err']})")
+    elif sorted(map(json.dumps, got)) != sorted(map(json.dumps, exp)):
+        bad("connected_components/components-not-the-partition", f"connected_components yields {got}, the classes are {exp}")
+    if isErr(snap["number"]):
+        bad("number_connected_components/raised", f"number_connected_components raised ({snap['number']['$err']})")
+    elif snap["number"] != len(exp):
+        bad("number_connected_components/number-of-components", f"number_connected_components = {snap['number']}, there are {len(exp)} classes {exp}")
+    if nodes:
+        if isErr(snap["connected"]):
+            bad("is_connected/raised", f"is_connected raised ({snap['connected']['$err']}) on a network with nodes {ids(nodes)}")
+        elif snap["connected"] != (len(exp) == 1):
+            bad("is_connected/is-connected-wrong", f"is_connected = {snap['connected']}, the classes are {exp}")
+        big = max(len(c) for c in exp)
+        first = next(c for c in exp if len(c) == big)
+        L = snap["largest"]
+        if isErr(L):
+            bad("largest_connected_component/raised", f"largest_connected_component raised ({L['$err']})")
+        elif L not in exp:
+            bad("largest_connected_component/not-a-component", f"largest_connected_component = {L}, the classes are {exp}")
+        elif len(L) != big:
+            bad("largest_connected_component/not-largest", f"largest_connected_component = {L}, the classes are {exp}")
+        elif L != first:
+            bad("largest_connected_component/not-first-largest", f"largest_connected_component = {L}, the first of maximal size is {first}")
+    for n, v in snap["ncc"]:
+        cls_ = next((c for c in exp if n in c), None)
+        if cls_ is None:
+            if not (isErr(v) and v["$err"] == "err:lib"):
+                bad("node_connected_component/wrong-error", f"node_connected_component of the foreign node {n!r} must raise XGIError, got {v}")
+        elif isErr(v):
+            bad("node_connected_component/raised", f"node_connected_component({n!r}) raised ({v['$err']})")
+        elif v != cls_:
+            bad("node_connected_component/node-component-wrong", f"node_connected_component({n!r}) = {v}, its class is {cls_}")
     return fails
 
 
@@ -621,6 +709,8 @@ def gen_case(rng, f=None, small=False):
         req["order"] = rng.randint(-1, 4)
     elif f == "maximal":
         req["strict"] = rng.random() < 0.4
+    elif f == "components":
+        req["probe"] = list(nodes) + ([rng.choice([99, "zz", -1])] if rng.random() < 0.4 else [])
     elif f == "relabel":
         req["label_attribute"] = rng.choice(["label", "old", "w"])
         req["in_place"] = rng.random() < 0.5
@@ -668,6 +758,7 @@ def small_scope_cases():
         for V in variants:
             for f in ("dual", "dual2", "complement", "lch", "copy"):
                 yield {"f": f, "H": V}
+            yield {"f": "components", "H": V, "probe": list(nodes) + [99]}
             for st in (False, True):
                 yield {"f": "maximal", "H": V, "strict": st}
             for o in (-1, 0, 1, 2, 3):
@@ -749,10 +840,17 @@ def build_dh(enc):
     DH = xgi.DiHypergraph()
     nattr = {json.dumps(k): a for k, a in enc.get("nattr", [])}
     eattr = {json.dumps(k): a for k, a in enc.get("eattr", [])}
-    DH.add_nodes_from([(dec_id(n), _attrs(nattr.get(json.dumps(n), []))) for n in enc["nodes"]])
+    # built through add_node / add_edge, NOT through the bulk methods that convert_labels_to_integers itself uses to
+    # rebuild the network: a defect of add_nodes_from / add_edges_from must not be baked into the input in the same way
+    # as into the result (edges: one at a time for an odd number of edges, in bulk otherwise — both paths stay in use)
+    for n in enc["nodes"]:
+        DH.add_node(dec_id(n), **_attrs(nattr.get(json.dumps(n), [])))
     items = [(([dec_id(x) for x in t], [dec_id(x) for x in h]), dec_id(e), _attrs(eattr.get(json.dumps(e), [])))
              for e, t, h in enc["edges"]]
-    if items:
+    if len(items) % 2:
+        for members, idx, a in items:
+            DH.add_edge(members, idx=idx, **a)
+    elif items:
         DH.add_edges_from(items)
     for k, v in enc.get("net", []):
         DH[k] = MH._val(v)
@@ -1094,7 +1192,16 @@ def correspond_other(ctx, done, results):
 SITE = {"subhypergraph": "subhypergraph", "dual": "Hypergraph.dual", "dual2": "Hypergraph.dual", "lshift": "Hypergraph.__lshift__",
         "complement": "complement", "cut_to_order": "cut_to_order", "k_skeleton": "k_skeleton",
         "from_max_simplices": "from_max_simplices", "maximal": "EdgeView.maximal", "lch": "largest_connected_hypergraph",
-        "relabel": "convert_labels_to_integers", "cleanup": "Hypergraph.cleanup", "copy": "Hypergraph.copy"}
+        "relabel": "convert_labels_to_integers", "cleanup": "Hypergraph.cleanup", "copy": "Hypergraph.copy",
+        "components": "connected_components"}
+
+
+def site_class(f, cls_):
+    """(site, failure class) of a predicate failure: the connectivity queries name their own function"""
+    if "/" in cls_:
+        site, c = cls_.split("/", 1)
+        return site, c
+    return SITE[f], cls_
 
 
 def evaluate(ctx, reqs):
@@ -1114,7 +1221,7 @@ def evaluate(ctx, reqs):
             small = shrink(req, still)
             r2, _, f2 = pred_classes(small)
             detail = next((d for c, d in f2 if c == cls0), fails[0][1])
-            ctx.violation(SITE[r["f"]], cls0, r2, detail=detail)
+            ctx.violation(*site_class(r["f"], cls0), r2, detail=detail)
         if any(len(ms) >= 2 for _, ms in r["H"]["edges"]):
             ctx.nontrivial.add(jhash([r, snap.get("nodes"), snap.get("mem")]))
         ctx.sample({"request": {k: v for k, v in r.items() if k not in ("H", "H2")}, "H": r["H"], "impl": norm(r["f"], snap)}, cap=3)
@@ -1134,6 +1241,9 @@ def correspond(ctx, done, results):
             continue
         ctx.traces += 1
         mo = norm(r["f"], canon(m))
+        if r["f"] == "components" and not r["H"]["nodes"]:
+            # the null network: whether is_connected / largest_connected_component raise is left open (see conn_pred)
+            mo = dict(mo, connected=im.get("connected"), largest=im.get("largest"))
         if r["f"] == "lch" and not r["H"]["nodes"] and im["out"] == "err:value":
             ctx.stats["lch-null-network-raises"] += 1      # accepted either way (see assumptions)
             continue
@@ -1168,8 +1278,8 @@ def load_corpus(other=False):
 
 
 def run(ctx):
-    ok = build_and_audit(ctx, "XgiModel.Props.C19", ["XgiModel.C19.Drive", "XgiModel.Props.C19O"],
-                         audit_extra=["XgiModel.Props.C19O"])
+    ok = build_and_audit(ctx, "XgiModel.Props.C19", ["XgiModel.C19.Drive", "XgiModel.Props.C19O", "XgiModel.Props.C19C"],
+                         audit_extra=["XgiModel.Props.C19O", "XgiModel.Props.C19C"])
     rng = ctx.rng
     reqs = load_corpus()
     ctx.stats["corpus_cases"] = len(reqs)
@@ -1177,6 +1287,7 @@ def run(ctx):
         reqs += list(all_flag_cases(H))
         for f in ("dual", "dual2", "complement", "lch", "copy"):
             reqs.append({"f": f, "H": H})
+        reqs.append({"f": "components", "H": H, "probe": list(H["nodes"]) + [99]})
         for st in (False, True):
             reqs.append({"f": "maximal", "H": H, "strict": st})
         for o in (-1, 0, 1, 2):
@@ -1254,5 +1365,5 @@ def replay(ctx, path):
     fails = pred(r, snap, exc)
     print(json.dumps({"request": r, "impl": norm(r["f"], snap), "predicate_failures": fails}, default=repr)[:4000])
     for c, d in fails:
-        ctx.violation(SITE[r["f"]], c, r, detail=d)
+        ctx.violation(*site_class(r["f"], c), r, detail=d)
     return finish(ctx, trusted_base=TRUSTED_COMMON)
